@@ -42,6 +42,49 @@ theorem gen_indexKeys : Gen.C14.indexKeys.all (fun p => decide (indexKey p.1 = p
 /-- includes the look-alike keys and the keys `path.Clean` rewrites -/
 theorem gen_metaKeys : Gen.C14.metaKeys.all (fun p => decide (metaKey p.1 = p.2)) = true := by decide +kernel
 theorem gen_heightValues : Gen.C14.heightValues.all (fun p => decide (encodeHeight p.1 = p.2)) = true := by decide
+
+/-! ### the regenerated lists are not empty and contain the keys known today
+
+The `.all` obligations above hold of an empty list: an extractor that finds nothing would pass them.  These
+obligations pin what the lists must at least contain: the four block-record prefixes (`/h/`, `/d/`, `/c/`, `/i/`) at the
+first height, at a multi-digit height and at 2^64-1; the little-endian height values; the metadata image of every key the node
+uses today (DA-included height `d`, last batch data `l`, the two submission watermarks, the `rhb/%d/d|h` formats at several heights)
+and of the look-alike and `path.Clean`-rewritten keys; and the write-count samples.  (The height key `/t` and the state key `/s` are
+equalities already: `gen_heightKey`, `gen_stateKey`; `nodeMetaConst` / `nodeMetaFormats` / `nodeMetaExternal` are equalities too.) -/
+
+theorem gen_blockKeys_known :
+    17 ≤ Gen.C14.headerKeys.length ∧ 17 ≤ Gen.C14.dataKeys.length ∧ 17 ≤ Gen.C14.signatureKeys.length ∧
+    (∀ h ∈ [1, 10, 256, 18446744073709551615],
+       (h, "/h/" ++ Nat.repr h) ∈ Gen.C14.headerKeys ∧ (h, "/d/" ++ Nat.repr h) ∈ Gen.C14.dataKeys ∧
+       (h, "/c/" ++ Nat.repr h) ∈ Gen.C14.signatureKeys) := by decide
+
+/-- the by-hash index: at least as many samples as block samples, every one a 32-byte hash under `/i/` followed by 64
+characters, no two samples the same hash -/
+theorem gen_indexKeys_known :
+    17 ≤ Gen.C14.indexKeys.length ∧
+    Gen.C14.indexKeys.all (fun p => p.1.length == 32 && p.2.startsWith "/i/" && p.2.length == 67) = true ∧
+    (Gen.C14.indexKeys.map (·.1)).Nodup ∧
+    Gen.C14.resaveDeleted.1.length = 32 ∧ Gen.C14.resaveDeleted.2.startsWith "/i/" = true := by decide +kernel
+
+theorem gen_heightValues_known :
+    (1, ([1, 0, 0, 0, 0, 0, 0, 0] : Bytes)) ∈ Gen.C14.heightValues ∧
+    (256, ([0, 1, 0, 0, 0, 0, 0, 0] : Bytes)) ∈ Gen.C14.heightValues ∧
+    (18446744073709551615, ([255, 255, 255, 255, 255, 255, 255, 255] : Bytes)) ∈ Gen.C14.heightValues := by decide
+
+/-- the metadata keys the node uses today, their per-height formats at heights 0, 7 and 2^64-1, the look-alike keys and
+the keys `path.Clean` rewrites are all among the regenerated samples, with the image the model gives them -/
+theorem gen_metaKeys_known :
+    (∀ k ∈ [daIncludedHeightKey, lastBatchDataKey, lastSubmittedDataHeightKey, lastSubmittedHeaderHeightKey,
+            rhbDataKey 0, rhbHeaderKey 0, rhbDataKey 7, rhbHeaderKey 7,
+            rhbDataKey 18446744073709551615, rhbHeaderKey 18446744073709551615,
+            "h/1", "d/1", "c/1", "t", "s", "i", "m"],
+       (k, "/m/" ++ k) ∈ Gen.C14.metaKeys) ∧
+    ("../h/1", "/h/1") ∈ Gen.C14.metaKeys ∧ ("../t", "/t") ∈ Gen.C14.metaKeys ∧ ("../s", "/s") ∈ Gen.C14.metaKeys ∧
+    ("", "/m") ∈ Gen.C14.metaKeys ∧ ("a/../b", "/m/b") ∈ Gen.C14.metaKeys := by decide +kernel
+
+/-- the write-count samples exist: one per block sample -/
+theorem gen_save_samples_known :
+    17 ≤ Gen.C14.saveAtomicWrites.length ∧ Gen.C14.savePuts.length = Gen.C14.saveAtomicWrites.length := by decide
 /-! ### the metadata keys the node uses, re-read from the SOURCE on every run
 
 `harness/streams/c14/metakeys.go` parses /repo (go/parser; a build overlay is honoured) and resolves the key
@@ -85,6 +128,12 @@ theorem gen_node_keys_clean :
 theorem gen_nodeMetaKeys : Gen.C14.nodeMetaKeys =
     Gen.C14.nodeMetaConst ++ [3, 4].flatMap (fun h => Gen.C14.nodeMetaFormats.map (fmtKey · h)) := by decide
 theorem gen_nodeMetaKeys_ok : Gen.C14.nodeMetaKeys.all metaKeyOK = true := by decide
+/-- every constant key and every per-height format found in the source has a sample in `metaKeys` -/
+theorem gen_metaKeys_cover_source :
+    (∀ k ∈ Gen.C14.nodeMetaConst, (k, "/m/" ++ k) ∈ Gen.C14.metaKeys) ∧
+    (∀ p ∈ Gen.C14.nodeMetaFormats, (fmtKey p 7, "/m/" ++ fmtKey p 7) ∈ Gen.C14.metaKeys) ∧
+    Gen.C14.nodeMetaConst ≠ [] ∧ Gen.C14.nodeMetaFormats ≠ [] ∧ 9 ≤ Gen.C14.nodeMetaKeys.length := by decide +kernel
+
 /-- one `SaveBlockData` is one atomic write of four puts; lowering the height writes nothing; saving a
 height again under the same header is again four puts, under another header four puts and ONE delete —
 of the index key of the replaced header's hash — in the same single atomic write (measured on the harness's
